@@ -122,6 +122,9 @@ func c05Session(seed int64, deadline time.Duration) *c05Result {
 	pass := eng.Entropy(rng)
 	auth := authMarker(rng, 300)
 	relay := sim.NewRelay()
+	if c := getenv("C05_CAP"); c != "" {
+		fmt.Sscan(c, &relay.Cap)
+	}
 	relay.KeepLog = getenv("C05_DUMP") != ""
 	s := eng.NewMboxParty(eng.NewKey(rng), nil, pass, auth, 0, 2)
 	cl := eng.NewMboxParty(eng.NewKey(rng), nil, pass, nil, 0, 2)
